@@ -273,6 +273,23 @@ def run_side(cmd, cases, stateful, timeout, max_restarts=40):
     return results
 
 
+def run_side_parallel(cmd, cases, stateful, timeout):
+    """run_side over contiguous slices of the cases in parallel driver processes"""
+    ncpu = os.cpu_count() or 1
+    workers = max(1, min(ncpu, len(cases) // 150))
+    if workers <= 1:
+        return run_side(cmd, cases, stateful, timeout)
+    from concurrent.futures import ThreadPoolExecutor
+    step = (len(cases) + workers - 1) // workers
+    slices = [cases[i:i + step] for i in range(0, len(cases), step)]
+    with ThreadPoolExecutor(max_workers=workers) as ex:
+        parts = list(ex.map(lambda sl: run_side(cmd, sl, stateful, timeout), slices))
+    out = []
+    for p in parts:
+        out += p
+    return out
+
+
 def summarize_crash(err):
     m = re.search(r"(ERROR: AddressSanitizer: [^\n]*|runtime error: [^\n]*|TIMEOUT[^\n]*|"
                   r"Assertion [^\n]*failed[^\n]*|SUMMARY: [^\n]*)", err)
@@ -508,41 +525,48 @@ def main():
             c.prop = pp
             c.hdrv = p_hdrv
         stateful = pp.STATEFUL
-        c_results = l_results = None
-        if p_hdrv:
-            c_results = run_side([p_hdrv, pp.ENGINE], pcases, stateful, timeout)
-        if ok_drv and not os.environ.get("VERIF_IMPL_ONLY"):
-            l_cases = pcases
-            if hasattr(pp, "lean_input") and c_results:
-                # recorded-parameter replay (DESIGN §3.2): the model consumes the ops annotated with
-                # what the external engine did on the implementation side
-                l_cases = []
-                for ci, case in enumerate(pcases):
-                    extras = [ex for _, ex in c_results[ci]["outs"]]
-                    extras += [[]] * (len(case.ops) - len(extras))
-                    l_cases.append(Case(pp.lean_input(case.ops, extras), case.origin, nout=len(case.ops)))
-            l_results = run_side([build.drv_path(), pp.ENGINE], l_cases, stateful, timeout)
-        elif not ok_drv and pp is prop:
+        if not ok_drv and pp is prop:
             proof_problems.append("model driver does not build: " + log_drv[-800:])
-        if not (c_results and l_results):
-            ran_both = False
-        if c_results:
-            for ci, case in enumerate(pcases):
-                evaluations += len(case.ops)
-                lr = l_results[ci] if l_results else None
-                fails = evaluate_case(pp, case, c_results[ci], lr)
-                for f in fails:
-                    if pp is not prop:
-                        f["signature"] = f["signature"].replace(pp.ID + ":", pid + ":", 1)
-                    all_fails.append((case, f))
-                    if f["kind"] == "diff":
-                        diffs += 1
-                if lr is not None:
-                    for t in pp.tags(case, [m for m, _ in c_results[ci]["outs"]]):
-                        tags[t] = tags.get(t, 0) + 1
-            cases += pcases
-            c_results_all += c_results
-            l_results_all += (l_results if l_results else [None] * len(pcases))
+        # bounded memory: the cases of a pass are run and evaluated in chunks, on all cores
+        CH = 16000
+        for c0 in range(0, max(1, len(pcases)), CH):
+            chunk = pcases[c0:c0 + CH]
+            if not chunk:
+                break
+            c_results = l_results = None
+            if p_hdrv:
+                c_results = run_side_parallel([p_hdrv, pp.ENGINE], chunk, stateful, timeout)
+            if ok_drv and not os.environ.get("VERIF_IMPL_ONLY"):
+                l_cases = chunk
+                if hasattr(pp, "lean_input") and c_results:
+                    # recorded-parameter replay (DESIGN §3.2): the model consumes the ops annotated with
+                    # what the external engine did on the implementation side
+                    l_cases = []
+                    for ci, case in enumerate(chunk):
+                        extras = [ex for _, ex in c_results[ci]["outs"]]
+                        extras += [[]] * (len(case.ops) - len(extras))
+                        l_cases.append(Case(pp.lean_input(case.ops, extras), case.origin, nout=len(case.ops)))
+                l_results = run_side_parallel([build.drv_path(), pp.ENGINE], l_cases, stateful, timeout)
+            if not (c_results and l_results):
+                ran_both = False
+            if c_results:
+                for ci, case in enumerate(chunk):
+                    evaluations += len(case.ops)
+                    lr = l_results[ci] if l_results else None
+                    fails = evaluate_case(pp, case, c_results[ci], lr)
+                    for f in fails:
+                        if pp is not prop:
+                            f["signature"] = f["signature"].replace(pp.ID + ":", pid + ":", 1)
+                        all_fails.append((case, f))
+                        if f["kind"] == "diff":
+                            diffs += 1
+                    if lr is not None:
+                        for t in pp.tags(case, [m for m, _ in c_results[ci]["outs"]]):
+                            tags[t] = tags.get(t, 0) + 1
+                cases += chunk
+                if len(c_results_all) < 64:      # kept for samples / replay printing only
+                    c_results_all += c_results[:64]
+                    l_results_all += (l_results[:64] if l_results else [None] * min(64, len(chunk)))
     c_results = c_results_all or None
     l_results = l_results_all if any(x is not None for x in l_results_all) else None
 
